@@ -585,7 +585,12 @@ def conform(ctx, U, T, sharing, keys, corrupt=None):
     """Every ordered pair: real sign == predicted sign; Equiv == erased-structure equality.
     Returns number of mismatches (raises MachineryError unless corrupt is set)."""
     n = len(U)
-    if sharing:
+    if sharing == "per-term":
+        # sub-objects shared WITHIN each term only: the same object occurs several times on one side and faces
+        # equal but not identical objects on the other (the equal_pairs cache is keyed by pairs of objects)
+        A = [materialise(t, {}) for t in U]
+        B = [materialise(t, {}) for t in U]
+    elif sharing:
         cache = {}
         A = [materialise(t, cache) for t in U]
         B = A
@@ -603,7 +608,7 @@ def conform(ctx, U, T, sharing, keys, corrupt=None):
             ctx.evaluated()
             ctx.traces(1)
             if i != j:
-                ctx.distinct(f"conf|{int(sharing)}|{show(U[i])}|{show(U[j])}")
+                ctx.distinct(f"conf|{sharing if isinstance(sharing, str) else int(sharing)}|{show(U[i])}|{show(U[j])}")
             if got != want:
                 bad.append((i, j, want, got, row["br"]))
             eqr = keys.ekey(A[i]) == keys.ekey(B[j])
@@ -612,6 +617,39 @@ def conform(ctx, U, T, sharing, keys, corrupt=None):
     if corrupt is not None:
         return len(bad)
     if bad:
+        # the code no longer follows the transcription: is what it computes still a total order on structure?
+        G = [[real_cmp(A[i], B[j]) for j in range(n)] for i in range(n)]
+        E = [[T[(i + 1, j + 1)]["eq"] for j in range(n)] for i in range(n)]
+        sgn = lambda v: (v > 0) - (v < 0)  # noqa: E731
+        broken = None
+        for i in range(n):
+            for j in range(n):
+                if (G[i][j] == 0) != E[i][j]:
+                    broken = ("tie-vs-equality", f"cmp_expr({show(U[i])}, {show(U[j])}) = {G[i][j]} but the expressions are {'equal' if E[i][j] else 'different'}")
+                elif sgn(G[i][j]) != -sgn(G[j][i]):
+                    broken = ("antisymmetry", f"cmp_expr({show(U[i])}, {show(U[j])}) = {G[i][j]} and the reverse = {G[j][i]}")
+                if broken:
+                    break
+            if broken:
+                break
+        if not broken:
+            for i in range(n):
+                for j in range(n):
+                    if G[i][j] >= 0:
+                        continue
+                    for k in range(n):
+                        if G[j][k] < 0 and not G[i][k] < 0:
+                            broken = ("transitivity", f"{show(U[i])} < {show(U[j])} < {show(U[k])} but cmp_expr(first, third) = {G[i][k]}")
+                            break
+                    if broken:
+                        break
+                if broken:
+                    break
+        if broken:
+            i, j, want, got, br = bad[0]
+            ctx.violation(f"C29:real-order:{broken[0]}", f"cmp_expr is not a total order consistent with equality: {broken[1]} ({len(bad)} of {n * n} pairs differ from Ordering.tla, sharing={sharing})",
+                          {"kind": "real-order", "law": broken[0], "detail": broken[1], "sharing": sharing})
+            return len(bad)
         i, j, want, got, br = bad[0]
         raise MachineryError(
             f"conformance: {len(bad)} of {n * n} pairs differ (sharing={sharing}); first: cmp_expr({show(U[i])}, {show(U[j])}) = {got}, "
@@ -714,6 +752,8 @@ def model_part(ctx, keys):
     for sharing in (True, False):
         Um, Tm, _ = tables[sharing]
         conform(ctx, Um, Tm, sharing, keys)
+    Um, Tm, _ = tables[False]  # the sign does not depend on which sub-objects are shared
+    conform(ctx, Um, Tm, "per-term", keys)
     i, j = 1, 2
     ctx.sample({"kind": "model-pair", "a": show(U[i - 1]), "b": show(U[j - 1]), "predicted_cmp": T[(i, j)]["c"], "branch": T[(i, j)]["br"]})
     return tables
